@@ -29,8 +29,9 @@ import (
 
 func TestVerifC18PipelineDeadline(t *testing.T) {
 	st := vstat.New("C18", "pipeline.deadline",
-		"rapid cases on one connection to a real ServerDNS (TCP) or ServerTLS with MaxPipelineCount 1..4 and a request-context deadline of 30/50/80 ms: a first wave of 1..limit+4 queries, an optional second wave of 1..4 queries sent a drawn fraction of the deadline later, a context-ignoring handler that holds every query either briefly or for 1.3-2.5 deadlines; non-trivial = the pipeline was full with a backlog for longer than the deadline; distinct by (transport, limit, deadline, waves, gap, hold)",
-		"pipeline-full-beyond-request-deadline", "second-wave-while-full", "released-before-deadline", "tcp", "tls")
+		"rapid cases on one connection to a real ServerDNS (TCP) or ServerTLS with MaxPipelineCount 1..4 and a request-context deadline of 30/50/80 ms: a first wave of 1..limit+4 queries, an optional second wave of 1..4 queries sent a drawn fraction of the deadline later, a context-ignoring handler that holds every query either briefly or for 1.3-2.5 deadlines, before it answers or after it has answered while it is still running (in work = handler entry to handler return); non-trivial = the pipeline was full with a backlog for longer than the deadline; distinct by (transport, limit, deadline, waves, gap, hold)",
+		"pipeline-full-beyond-request-deadline", "second-wave-while-full", "released-before-deadline", "tcp", "tls",
+		"handler-still-running-after-its-response-was-written-with-pipeline-full")
 	st.Finish(t)
 
 	env := &vc18pEnv{
@@ -57,9 +58,10 @@ func vc18pDeadlineCase(t *rapid.T, st *vstat.Stats, env *vc18pEnv) {
 	// holdPct is how long the handler keeps the first arrivals, in percent of
 	// the deadline, counted from the moment the pipeline is full.
 	holdPct := rapid.SampledFrom([]int{0, 0, 130, 160, 200, 250}).Draw(t, "holdPct")
+	shape := rapid.IntRange(0, 2).Draw(t, "handlerShape")
 	total := wave1 + wave2
 
-	desc := fmt.Sprintf("tls=%t limit=%d deadline=%s wave1=%d wave2=%d gap=%d%% hold=%d%%", useTLS, limit, deadline, wave1, wave2, gapPct, holdPct)
+	desc := fmt.Sprintf("tls=%t limit=%d deadline=%s wave1=%d wave2=%d gap=%d%% hold=%d%% handler=%s", useTLS, limit, deadline, wave1, wave2, gapPct, holdPct, vc18pShapeNames[shape])
 
 	srv, err := env.server(useTLS, limit, deadline)
 	if err != nil {
@@ -74,6 +76,7 @@ func vc18pDeadlineCase(t *rapid.T, st *vstat.Stats, env *vc18pEnv) {
 	c := &vc18pConn{
 		id:      id,
 		limit:   limit,
+		shape:   shape,
 		release: make(chan struct{}, total),
 		drain:   make(chan struct{}),
 		remotes: map[string]bool{},
@@ -304,6 +307,14 @@ func vc18pDeadlineCase(t *rapid.T, st *vstat.Stats, env *vc18pEnv) {
 
 	if len(bad) > 0 {
 		t.Fatalf("%s: answers that were never asked for or given twice: %v", desc, bad)
+	}
+
+	classes = append(classes, "handler:"+vc18pShapeNames[shape])
+	c.mu.Lock()
+	afterWriteFull := c.maxAfterWriteFull
+	c.mu.Unlock()
+	if afterWriteFull > 0 && total > limit {
+		classes = append(classes, "handler-still-running-after-its-response-was-written-with-pipeline-full")
 	}
 
 	switch {
